@@ -376,7 +376,13 @@ func c02RunKernels(r *Run, rng *Rng) {
 				sem <- struct{}{}
 				defer func() { <-sem }()
 				dir := filepath.Join(r.OutDir, fmt.Sprintf("kern-%d-%d", i, m))
-				j.res[m] = c02RunKern(dir, c02KernSpec{Seed: j.seed, Timing: m == 1, Grid: j.grid}, 120*time.Second)
+				// a hang is the driver's lost wake-up (property C12), not this property's subject: repeat
+				for try := 0; try < 3; try++ {
+					j.res[m] = c02RunKern(dir, c02KernSpec{Seed: j.seed, Timing: m == 1, Grid: j.grid}, 40*time.Second)
+					if j.res[m].Fault != "hang" {
+						break
+					}
+				}
 			}(i, m, j)
 		}
 	}
